@@ -17,6 +17,9 @@ pub enum Op {
     Get { k: u64, hold: bool },
     /// get_or_fetch whose origin yields `yields` times and then returns version `ver` (or fails).
     Fetch { k: u64, ver: u32, w: u32, yields: u8, fail: bool, hold: bool },
+    /// get_or_fetch whose caller gives up: the future is polled `polls` times and dropped if it has not resolved; foyer's
+    /// fetch task carries on alone. The scenario then waits for it (the operation is logged as the fetch it amounts to).
+    AbandonFetch { k: u64, ver: u32, w: u32, yields: u8, polls: u8 },
     Contains { k: u64 },
     Touch { k: u64 },
     Remove { k: u64 },
